@@ -76,6 +76,9 @@ def replay(chk, cases, judge=None, tagger=None, hooks=False, sample_every=997, f
     """Replay cases in the real code and judge every run.
     judge(case, run, exp, obs) -> None | reason;  tagger(case, run, exp, obs, why) -> (tags, obs_sig)"""
     live = drop_ill(chk, cases)
+    # vacuity indicator (read it after adding members to a family): grammars none of whose runs is expected to match
+    dead = sum(1 for c in live if not any(x[0] == 'ok' and x[2] > r[2] for r, x in zip(c['runs'], c['exp'])))
+    chk.notes['grammars_without_a_consuming_match'] = chk.notes.get('grammars_without_a_consuming_match', 0) + dead
     obs = engine.run_real(live, hooks=hooks, fn=fn, timeout_budget=timeout_budget)
     n = 0
     for c in live:
